@@ -27,7 +27,7 @@ def all_eq(a, b):
     return z3.And([x == y for x, y in zip(a, b)]) if a else z3.BoolVal(True)
 
 
-def c03_digests(ctx, mask, hs, ps, md5_len=16):
+def c03_digests(ctx, mask, hs, ps, md5_len=16, sha1_len=40, sha256_len=64, pd_len=64):
     """mask: 1 MD5, 2 SHA1, 4 SHA256, 8 payload digest (+algo). hs: extra symbolic store bytes in the main header,
     ps: payload bytes (symbolic). Every recorded value and the algorithm id are symbolic."""
     vd = ctx.impl_fn("verify_digests", None, "Package")
@@ -38,8 +38,8 @@ def c03_digests(ctx, mask, hs, ps, md5_len=16):
                   "all recorded digests, the algorithm id, header store and payload bytes symbolic; digests are uninterpreted functions of the hashed bytes" % (mask, hs, ps))
 
     def setup(e):
-        inp = dict(md5=sym_bytes(e, "m", md5_len, 0, 255), sha1=sym_bytes(e, "s", 40, 0x20, 0x7e), sha256=sym_bytes(e, "S", 64, 0x20, 0x7e),
-                   pd=sym_bytes(e, "p", 64, 0x20, 0x7e), algo=z3.BitVec("algo", 32), store=sym_bytes(e, "h", hs, 0, 255), content=sym_bytes(e, "c", ps, 0, 255))
+        inp = dict(md5=sym_bytes(e, "m", md5_len, 0, 255), sha1=sym_bytes(e, "s", sha1_len, 0x20, 0x7e), sha256=sym_bytes(e, "S", sha256_len, 0x20, 0x7e),
+                   pd=sym_bytes(e, "p", pd_len, 0x20, 0x7e), algo=z3.BitVec("algo", 32), store=sym_bytes(e, "h", hs, 0, 255), content=sym_bytes(e, "c", ps, 0, 255))
         return inp
 
     def body(e, inp):
@@ -136,16 +136,17 @@ def replay_c03(ctx, fl):
     algo = fl["algo"]
 
     def build(md5, sha1, sha256, pd):
+        # index entries in the order the harness uses (MD5, SHA1, SHA256: not sorted by tag, which the parser accepts)
         sig_e, sig_s = [], b""
+        if mask & 1:
+            sig_e.append((sigtag("RPMSIGTAG_MD5"), "Bin", len(sig_s), len(md5)))
+            sig_s += md5
         if mask & 2:
             sig_e.append((sigtag("RPMSIGTAG_SHA1"), "StringTag", len(sig_s), 1))
             sig_s += sha1 + b"\0"
         if mask & 4:
             sig_e.append((sigtag("RPMSIGTAG_SHA256"), "StringTag", len(sig_s), 1))
             sig_s += sha256 + b"\0"
-        if mask & 1:
-            sig_e.append((sigtag("RPMSIGTAG_MD5"), "Bin", len(sig_s), len(md5)))
-            sig_s += md5
         ent, st = [], store0
         if mask & 8:
             ent.append((tag("RPMTAG_PAYLOADDIGEST"), "StringArray", len(st), 1))
@@ -166,15 +167,25 @@ def replay_c03(ctx, fl):
         ans = ctx.native.ask("digests", pkg.hex())
         return ans == "panic", "real crate: verify_digests -> %s (algorithm id %d)" % (ans, algo)
     tried = []
-    ml = len(bytes.fromhex(fl.get("md5", ""))) if mask & 1 else 16
-    for pd_ok in ((True, False) if mask & 8 else (True,)):
-        pd = true_pd if pd_ok else (b"f" * 64 if true_pd != b"f" * 64 else b"e" * 64)
+
+    def wlen(key, dflt):
+        return len(bytes.fromhex(fl.get(key, ""))) if key in fl else dflt
+
+    def fit(true, n, full):
+        """digests of the witness's length: the true one when the length is the real one, otherwise its prefix / an extension of it"""
+        if n == full:
+            return None
+        return [("a %d-byte prefix/extension of the true digest" % n, (true + true)[:n])]
+    ml, l1, l2, lp = (wlen("md5", 16) if mask & 1 else 16), (wlen("sha1", 40) if mask & 2 else 40), (wlen("sha256", 64) if mask & 4 else 64), (wlen("pd", 64) if mask & 8 else 64)
+    pd_cands = [("true", true_pd), ("wrong", b"f" * 64 if true_pd != b"f" * 64 else b"e" * 64)] if lp == 64 else fit(true_pd, lp, 64)
+    for pd_name, pd in (pd_cands if mask & 8 else [("true", true_pd)]):
+        pd_ok = pd_name == "true"
         _, hdr = build(b"\0" * 16, b"0" * 40, b"0" * 64, pd)
+        t_md5, t_sha1, t_sha256 = hashlib.md5(hdr + content).digest(), hashlib.sha1(hdr).hexdigest().encode(), hashlib.sha256(hdr).hexdigest().encode()
         cands = {
-            "md5": [("true", hashlib.md5(hdr + content).digest()), ("header only", hashlib.md5(hdr).digest()), ("payload only", hashlib.md5(content).digest()), ("junk", b"\x55" * 16)]
-            if ml == 16 else [("prefix of the true digest (%d bytes)" % ml, (hashlib.md5(hdr + content).digest() * 3)[:ml])],
-            "sha1": [("true", hashlib.sha1(hdr).hexdigest().encode()), ("header+payload", hashlib.sha1(hdr + content).hexdigest().encode()), ("upper", hashlib.sha1(hdr).hexdigest().upper().encode()), ("junk", b"5" * 40)],
-            "sha256": [("true", hashlib.sha256(hdr).hexdigest().encode()), ("header+payload", hashlib.sha256(hdr + content).hexdigest().encode()), ("payload", true_pd), ("junk", b"5" * 64)],
+            "md5": fit(t_md5, ml, 16) or [("true", t_md5), ("header only", hashlib.md5(hdr).digest()), ("payload only", hashlib.md5(content).digest()), ("junk", b"\x55" * 16)],
+            "sha1": fit(t_sha1, l1, 40) or [("true", t_sha1), ("header+payload", hashlib.sha1(hdr + content).hexdigest().encode()), ("upper", t_sha1.upper()), ("junk", b"5" * 40)],
+            "sha256": fit(t_sha256, l2, 64) or [("true", t_sha256), ("header+payload", hashlib.sha256(hdr + content).hexdigest().encode()), ("payload", true_pd), ("junk", b"5" * 64)],
         }
         for (n1, m), (n2, s1), (n3, s2) in itertools.product(cands["md5"] if mask & 1 else [("-", b"\0" * 16)], cands["sha1"] if mask & 2 else [("-", b"0" * 40)],
                                                            cands["sha256"] if mask & 4 else [("-", b"0" * 64)]):
@@ -185,7 +196,7 @@ def replay_c03(ctx, fl):
             tried.append(ans)
             if ans == "panic" or got_ok != spec_ok:
                 return True, "real crate: md5=%s sha1=%s sha256=%s payload digest %s algo %d -> %s, specification says %s" % (
-                    n1, n2, n3, "true" if pd_ok else "wrong", algo, ans, "ok" if spec_ok else "error")
+                    n1, n2, n3, pd_name, algo, ans, "ok" if spec_ok else "error")
             if not got_ok and spec_ok is False and fl["kind"] == "errkind" and (n1, n2, n3) != ("true",) * 3 and ans != "err mismatch" and (not mask & 8 or algo == 8):
                 return True, "real crate: wrong digest reported as %s" % ans
     return False, "no digest arrangement reproduced the disagreement natively (%d packages tried)" % len(tried)
@@ -196,6 +207,12 @@ for _m in range(16):
     HARNESSES["c03_digests_m%02d" % _m] = (lambda m: (lambda ctx: c03_digests(ctx, m, 2, 3)))(_m)
 for _l in (0, 1, 8, 15, 17, 32):
     HARNESSES["c03_md5len_%d" % _l] = (lambda l: (lambda ctx: c03_digests(ctx, 1, 2, 3, md5_len=l)))(_l)
+# recorded hex digests that are shorter or longer than the real one (same family as c03_md5len)
+for _l in (0, 1, 39, 41):
+    HARNESSES["c03_sha1len_%d" % _l] = (lambda l: (lambda ctx: c03_digests(ctx, 2, 2, 3, sha1_len=l)))(_l)
+for _l in (0, 1, 63, 65):
+    HARNESSES["c03_sha256len_%d" % _l] = (lambda l: (lambda ctx: c03_digests(ctx, 4, 2, 3, sha256_len=l)))(_l)
+    HARNESSES["c03_pdlen_%d" % _l] = (lambda l: (lambda ctx: c03_digests(ctx, 8, 2, 3, pd_len=l)))(_l)
 
 
 def c04_payload_digest(ctx, items):
@@ -816,6 +833,15 @@ def _verify(ex, args, f):
     return intrinsics2.ok() if a else intrinsics2.err(Adt("Error", "VerificationError", []))
 
 
+@intrinsics.intr("<_ as Verifying>::algorithm")
+def _verify_algorithm(ex, args, f):
+    """S6: the verifier's key family is whatever the implementation says: chosen by the solver (constant per verifier)"""
+    v = intrinsics.deref_all(ex, args[0])
+    if getattr(v, "algo", None) is None:
+        v.algo = "RSA" if ex.decide(z3.Bool("verifier_is_rsa")) else ("EdDSA" if ex.decide(z3.Bool("verifier_is_eddsa")) else "ECDSA")
+    return Adt("AlgorithmType", v.algo)
+
+
 DECODE_LENS = (0, 3, 6)
 
 
@@ -851,7 +877,7 @@ def c02_verify(ctx, shapes, with_digest):
     wr = ctx.impl_fn("write", None, "Header")
     ctx.bounds = ("%d signature-header shapes (OPENPGP: absent / wrong type / string array of 0,1,2 items; RSA, DSA, PGP: absent / binary / wrong type), signature bytes symbolic, "
                   "every accept/reject pattern of the verifier, base64 decoding modelled as error-or-arbitrary-bytes%s; main header of one entry, payload 2 symbolic bytes"
-                  % (len(shapes), "; SHA256 header digest present and symbolic" if with_digest else ""))
+                  % (len(shapes), ("; SHA256 header digest present and symbolic (%d characters)" % (64 if with_digest is True else with_digest)) if with_digest is not False else ""))
     total = None
     for shape in shapes:
         ex = Exec(ctx.funcs, intrinsics.I)
@@ -862,7 +888,7 @@ def c02_verify(ctx, shapes, with_digest):
             e._decode_calls = 0
             e._decoded = []
             inp = {"content": sym_bytes(e, "c", 2, 0, 255), "rsa": sym_bytes(e, "r", 6, 0, 255), "dsa": sym_bytes(e, "d", 6, 0, 255), "pgp": sym_bytes(e, "g", 6, 0, 255),
-                   "b64": [sym_bytes(e, "o%d_" % i, 2, 0x30, 0x7a) for i in range(2)], "sha256": sym_bytes(e, "S", 64, 0x20, 0x7e)}
+                   "b64": [sym_bytes(e, "o%d_" % i, 2, 0x30, 0x7a) for i in range(2)], "sha256": sym_bytes(e, "S", 64 if with_digest is True else int(with_digest), 0x20, 0x7e)}
             return inp
 
         def body(e, inp, og=og, rsa=rsa, dsa=dsa, pgp=pgp):
@@ -877,7 +903,7 @@ def c02_verify(ctx, shapes, with_digest):
                     ents.append(index_entry(sigtag(name), index_data("Bin", byte_vec(inp[key]))))
                 elif st == "wrong":
                     ents.append(index_entry(sigtag(name), index_data("StringTag", string(inp[key]))))
-            if with_digest:
+            if with_digest is not False:
                 ents.append(index_entry(sigtag("RPMSIGTAG_SHA256"), index_data("StringTag", string(inp["sha256"]))))
             sig = header(ents, [])
             hdr = header([index_entry(tag("RPMTAG_NAME"), index_data("StringTag", string(b"x")), 0)], [ord("x"), 0])
@@ -897,8 +923,9 @@ def c02_verify(ctx, shapes, with_digest):
                 m = e.solver.model()
                 g = lambda xs: bytes(m.eval(x, model_completion=True).as_long() for x in xs).hex()  # noqa: E731
                 return dict(shape="/".join(shape), content=g(inp["content"]), rsa=g(inp["rsa"]), dsa=g(inp["dsa"]), pgp=g(inp["pgp"]),
-                            b64=[g(x) for x in inp["b64"]], sha256=g(inp["sha256"]), digest=with_digest,
-                            accepts=("".join("1" if c[2] else "0" for c in v[1].calls) if k == "return" else ""))
+                            b64=[g(x) for x in inp["b64"]], sha256=g(inp["sha256"]), digest=(with_digest is not False),
+                            accepts=("".join("1" if c[2] else "0" for c in v[1].calls) if k == "return" else ""),
+                            algo=(getattr(v[1], "algo", None) if k == "return" else None) or "RSA")
             if k != "return":
                 ctx.fail("signature verification panics: %s" % (v,), "Package::verify_signature", kind="panic", **wit())
                 return
@@ -935,7 +962,7 @@ def c02_verify(ctx, shapes, with_digest):
                                 why = "succeeds although a signature was checked against other bytes than the ones it covers"
                             elif len(sig) != len(sg) or (sig and e._check(z3.Not(all_eq(sig, list(sg))))):
                                 why = "succeeds although the verifier was shown different signature bytes than the header stores"
-                    if why is None and with_digest:
+                    if why is None and with_digest is not False:
                         dig_ok = all_eq(hexchars(uf_digest("sha256", hb)), inp["sha256"])
                         if e._check(z3.Not(dig_ok)):
                             why = "succeeds although the recorded header digest does not match"
@@ -951,7 +978,7 @@ def c02_verify(ctx, shapes, with_digest):
                     er = r.fields[0]
                     if isinstance(er, Adt) and er.variant in ("VerificationError", "Io"):
                         return
-                    if with_digest and isinstance(er, Adt) and er.variant == "DigestMismatchError":
+                    if with_digest is not False and isinstance(er, Adt) and er.variant == "DigestMismatchError":
                         return
                     ctx.fail("signature verification fails (%s) although every signature was accepted" % (getattr(er, "variant", er),), "Package::verify_signature", kind="c02live", **wit())
 
@@ -973,6 +1000,9 @@ HARNESSES["c02_verify_openpgp"] = lambda ctx: c02_verify(ctx, [s for s in _ALL i
 HARNESSES["c02_verify_legacy"] = lambda ctx: c02_verify(ctx, [s for s in _ALL if not s[0].startswith("arr")], False)
 HARNESSES["c02_verify_digest"] = lambda ctx: c02_verify(ctx, [("arr1", "absent", "absent", "absent"), ("absent", "right", "absent", "absent"), ("absent", "absent", "right", "right"),
                                                               ("arr0", "right", "absent", "absent"), ("wrong", "absent", "right", "absent")], True)
+# the same with a recorded header digest that is shorter than a SHA-256 in hex
+HARNESSES["c02_verify_digest_short"] = lambda ctx: c02_verify(ctx, [("arr1", "absent", "absent", "absent"), ("absent", "right", "absent", "absent")], 63)
+HARNESSES["c02_verify_digest_empty"] = lambda ctx: c02_verify(ctx, [("arr1", "absent", "absent", "absent")], 0)
 
 
 def replay_c02(ctx, fl):
@@ -995,18 +1025,28 @@ def replay_c02(ctx, fl):
             add(name, "Bin", bytes.fromhex(fl[key]), 6)
         elif st == "wrong":
             add(name, "StringTag", b"abc\0", 1)
+    if fl.get("digest"):
+        # the recorded header digest: the true one, unless the finding is that a wrong one is accepted (then: junk of the witness's
+        # length, or - for another length than 64 - the matching prefix/extension of the true digest)
+        import hashlib
+        true = hashlib.sha256(RB.header([(tag("RPMTAG_NAME"), "StringTag", 0, 1)], b"x\0")).hexdigest().encode()
+        n = len(bytes.fromhex(fl.get("sha256", "")))
+        val = true
+        if "digest does not match" in fl.get("description", ""):
+            val = b"5" * 64 if n == 64 else (true + true)[:n]
+        add("RPMSIGTAG_SHA256", "StringTag", val + b"\0", 1)
     pkg = RB.package(sig_e, sig_s, [(tag("RPMTAG_NAME"), "StringTag", 0, 1)], b"x\0", bytes.fromhex(fl["content"]))
     pattern = fl.get("accepts") or "1111"
     if fl["kind"] != "c02":
         pattern = "1111"
-    ans = ctx.native.ask("sigverify", pkg.hex(), pattern)
+    ans = ctx.native.ask("sigverify", pkg.hex(), pattern, fl.get("algo") or "RSA")
     parts = dict(x.split("=") for x in ans.split()[1:]) if " " in ans else {}
     res = ans.split()[0]
     if fl["kind"] == "panic":
         return res == "panic", "real crate: " + ans
     if fl["kind"] == "c02":
         ncalls = int(parts.get("calls", "0"))
-        bad = res == "ok" and (ncalls == 0 or "x" in parts.get("covers", "") or "0" in pattern[:ncalls])
+        bad = res == "ok" and (ncalls == 0 or "x" in parts.get("covers", "") or "0" in pattern[:ncalls] or "digest does not match" in fl.get("description", ""))
         return bad, "real crate with a verifier answering %s (1 = accept): %s" % (pattern, ans)
     if fl["kind"] == "c02live":
         return res != "ok", "real crate with an all-accepting verifier: %s" % ans
@@ -1311,6 +1351,77 @@ def c04_cpio(ctx, magic, tail, nfiles):
 for _m, _nm in ((b"070701", "newc"), (b"070702", "crc"), (b"07070X", "stripped"), (None, "anymagic")):
     for _t, _n in ((0, 0), (2, 0), (4, 1), (12, 1)):
         HARNESSES["c04_cpio_%s_%d_%d" % (_nm, _t, _n)] = (lambda m, t, n: (lambda ctx: c04_cpio(ctx, m, t, n)))(_m, _t, _n)
+
+
+def c04_fileiter(ctx, nbytes):
+    """FileIterator::next on a payload that starts with a well-formed newc entry (name "a", `nbytes` content bytes) while the header's
+    file entry carries a symbolic (untrusted) size: no panic, no allocation out of proportion to the input"""
+    nx = ctx.find_fn(r"package::<impl at [^>]*>::next")
+    ex = Exec(ctx.funcs, intrinsics.I, max_steps=400000)
+    ctx.stats = ex.stats
+    import rpmbytes as RB
+    arch = RB.cpio_newc([(b"a", 0o100644, b"x" * nbytes)])
+    ALLOC_BUDGET[0] = 16 * len(arch) + 4096
+    intrinsics2.ITEM_BUDGET[0] = len(arch) + 4200
+    ctx.bounds = ("FileIterator::next over a %d-byte newc archive (one entry of %d content bytes, content symbolic, then the trailer) whose header file entry has a symbolic 64-bit size; "
+                  "allocation budget %d bytes per request" % (len(arch), nbytes, ALLOC_BUDGET[0]))
+
+    def setup(e):
+        return dict(size=z3.BitVec("size", 64), content=sym_bytes(e, "c", nbytes, 0, 255))
+
+    def body(e, inp):
+        bs = [z3.BitVecVal(b, 8) for b in arch]
+        i = arch.index(b"x" * nbytes) if nbytes else 0
+        for k in range(nbytes):
+            bs[i + k] = inp["content"][k]
+        from intrinsics3 import PathV
+        fe = Adt("FileEntry", "FileEntry", [PathV([z3.BitVecVal(c, 8) for c in b"/a"]), Adt("FileMode", "Regular", [Int(0o644, "u16")]),
+                                            Adt("FileOwnership", "FileOwnership", [string(b"root"), string(b"root")]), Adt("Timestamp", "Timestamp", [Int(0, "u32")]),
+                                            Int(inp["size"], "usize"), Adt("FileFlags", "bits", [Int(0, "u32")]), Adt("Option", "None"), Adt("Option", "None"), string(b""),
+                                            Adt("Option", "None")])
+        it = Adt("FileIterator", "FileIterator", [VecV([fe]), Reader(bs), Int(0, "usize")])
+        cell = Cell(it)
+        first = e.call_fn(nx, [Ref(cell)])
+        return first
+
+    def on_path(e, inp, out):
+        k, v = out
+        size = None
+        if e.solver.check() == z3.sat:
+            size = e.solver.model().eval(inp["size"], model_completion=True).as_long()
+        if k == "alloc":
+            ctx.fail("payload iteration: allocation out of proportion to the input", "FileIterator::next", kind="fileiter", size=size, nbytes=nbytes, detail=str(v))
+            return
+        if k != "return":
+            ctx.fail("payload iteration panics: %s" % (v,), "FileIterator::next", kind="fileiter", size=size, nbytes=nbytes)
+            return
+        ctx.cover("an entry is returned", v.variant == "Some")
+        if v.variant == "Some" and v.fields[0].variant == "Ok":
+            got = as_bytes(e, v.fields[0].fields[0].fields[1])
+            if len(got) != nbytes or (nbytes and e._check(z3.Not(all_eq(got, inp["content"])))):
+                ctx.fail("payload iteration returns other bytes than the archive stores for the entry", "FileIterator::next", kind="fileiter", size=size, nbytes=nbytes)
+    ex.run_all(setup, body, on_path)
+
+
+def replay_fileiter(ctx, fl):
+    import struct
+    import rpmbytes as RB
+    size = fl.get("size") or 0
+    nb = fl.get("nbytes", 0)
+    # a package whose header says `size` for a file whose archive entry has nb bytes
+    big = size > 0xffffffff
+    pk = RB.files_package([b"/"], [(0, b"a", 0o100644, b"", b"x" * nb)], declared_sizes=[size])
+    ans = ctx.native.ask("peak", "files", pk.hex())
+    parts = ans.split()
+    if parts and parts[0] == "panic":
+        return True, "real crate: Package::files() iteration -> panic (header file size %d, archive entry of %d bytes)" % (size, nb)
+    peak = int(parts[-1].split("=")[1]) if parts and "=" in parts[-1] else 0
+    return peak > 16 * len(pk) + 4096, "real crate: iterating a %d-byte package with header file size %d -> %s" % (len(pk), size, ans[:120])
+
+
+for _n in (0, 1, 3, 4):
+    HARNESSES["c04_fileiter_%d" % _n] = (lambda n: (lambda ctx: c04_fileiter(ctx, n)))(_n)
+REPLAYERS["c04"] = (lambda prev: (lambda ctx, fl: replay_fileiter(ctx, fl) if fl.get("kind") == "fileiter" else prev(ctx, fl)))(REPLAYERS["c04"])
 
 
 # ---------------------------------------------------------------------------------------------------------
